@@ -23,7 +23,7 @@ import tempfile
 import time
 
 from ..common import Report, deadline, pmap, seed
-from ._optutil import eq_str, path_is_valid, quiet, run_child, seed_globals, tree_query_mismatch
+from ._optutil import mk_tmp, run_tmpbase, eq_str, path_is_valid, quiet, run_child, seed_globals, tree_query_mismatch
 
 MOD = "vt.props.c14_bounded"
 
@@ -205,7 +205,7 @@ def run_seq(case):
         fired[k] = fired.get(k, 0) + n
 
     seed_globals(9176 + 31 * sum((i + 1) * (q + 1) for i, q in enumerate(seq)))
-    directory = tempfile.mkdtemp(prefix="c14-") if cfg["dir"] else None
+    directory = mk_tmp("c14-") if cfg["dir"] else None
     eff_split = True if cfg["split"] == "auto" else cfg["split"]  # 'auto' on an empty / missing directory defaults to split
     hits = 0
     try:
@@ -521,7 +521,7 @@ def run_diskdict(case):
     from cotengra.utils import DiskDict
 
     problems = []
-    d = tempfile.mkdtemp(prefix="c14dd-") if case["dir"] else None
+    d = mk_tmp("c14dd-") if case["dir"] else None
     try:
         dd = DiskDict(d)
         model = {}
@@ -601,7 +601,7 @@ def run_reload(case):
     same paths (and sliced indices) without searching."""
     cfg = case["cfg"]
     problems = []
-    d = tempfile.mkdtemp(prefix="c14r-")
+    d = mk_tmp("c14r-")
     try:
         seed_globals(77)
         with quiet():
@@ -709,7 +709,7 @@ def build_cases(tier):
     return cases_by_scope
 
 
-def run_bounded(rep: Report, tier: str) -> None:
+def _run_bounded(rep: Report, tier: str) -> None:
     quick = tier == "quick"
     dl = deadline(tier, 300, 1800)
     rng = random.Random(seed() * 101 + 14)
@@ -843,6 +843,11 @@ def run_bounded(rep: Report, tier: str) -> None:
     )
     rep.assumptions.append("C14: the model of 'equivalent contraction' is canon_a / canon_b of this driver (written from the property statement)")
     rep.trusted_base.append("pickle round trip of small dicts; tempfile directories on the local file system")
+
+
+def run_bounded(rep: Report, tier: str) -> None:
+    with run_tmpbase("c14run-"):
+        _run_bounded(rep, tier)
 
 
 if __name__ == "__main__":
